@@ -63,9 +63,8 @@ func TestC04(t *testing.T) {
 		var body []byte
 		pn, pv := recoverPanic(func() { body = tls.TransportParameters{tp}.Marshal() })
 		if pn {
-			if ov >= 1<<62 {
-				return // not encodable: the varint refuses it (C24)
-			}
+			// (also for values of 2^62 and more: they are not valid GREASE ids - a QUIC varint
+			// cannot carry them - so the documented behaviour is a randomly generated id)
 			r.Violation(map[string]string{"kind": "tp_grease_override_panic"}, fmt.Sprintf("IdOverride %d: Marshal panicked: %v", ov, pv), ov)
 			return
 		}
@@ -80,7 +79,7 @@ func TestC04(t *testing.T) {
 		if isGrease(ov) && parsed[0].ID != ov {
 			r.Violation(map[string]string{"kind": "tp_grease_override_ignored"}, fmt.Sprintf("IdOverride %d is a reserved id but %d was sent", ov, parsed[0].ID), mon.Hex(body))
 		}
-		if g.IsGREASEID(ov) != isGrease(ov) && ov < 1<<62 {
+		if g.IsGREASEID(ov) != isGrease(ov) {
 			r.Violation(map[string]string{"kind": "quic_IsGREASEID_disagrees"}, fmt.Sprintf("IsGREASEID(%d)=%v, the rule 31*N+27 says %v", ov, g.IsGREASEID(ov), isGrease(ov)), ov)
 		}
 		r.Count("grease_id_overrides_checked", 1)
@@ -270,6 +269,7 @@ func TestC04(t *testing.T) {
 		}
 	}
 	greaseTargets := 0
+	interlopers := 0
 	for ti, tg := range targets {
 		vals := map[string]map[uint16]bool{"cipher": {}, "group": {}, "ext": {}, "version": {}}
 		hasGrease := map[string]bool{}
@@ -284,7 +284,22 @@ func TestC04(t *testing.T) {
 				// a randomness source that answers with short reads (1..8 bytes per call)
 				gcfg.Rand = peer.ChunkedRand{N: []int{1, 2, 4, 8}[(ti/3)%4]}
 			}
-			raw, _, err, _ := buildHello(gcfg, tls.HelloCustom, func(u *tls.UConn) error { return u.ApplyPreset(spec) })
+			raw, _, err, _ := buildHello(gcfg, tls.HelloCustom, func(u *tls.UConn) error {
+				if err := u.ApplyPreset(spec); err != nil {
+					return err
+				}
+				if strings.HasPrefix(tg.name, "shared:") && k%2 == 1 {
+					// another connection is set up from the same spec object before this one
+					// marshals its hello (concurrent dials from one package-level spec): the
+					// values it draws are its own
+					other := tls.UClient(nil, &tls.Config{ServerName: "example.test", OmitEmptyPsk: true}, tls.HelloCustom)
+					if err := other.ApplyPreset(spec); err != nil {
+						return err
+					}
+					interlopers++
+				}
+				return nil
+			})
 			if err != nil {
 				r.Violation(map[string]string{"kind": "build_error", "target": tg.name}, err.Error(), nil)
 				break
@@ -417,6 +432,8 @@ func TestC04(t *testing.T) {
 		}
 	}
 	r.Count("grease_bearing_targets", int64(greaseTargets))
+	r.Count("shared_spec_interlopers", int64(interlopers))
+	r.Floor("shared_spec_interlopers", 10)
 	r.Floor("grease_bearing_targets", 10)
 	r.Assume("freshness is judged by >=2 distinct values over N connections (false-alarm probability <= 16^-(N-1))")
 }
